@@ -686,6 +686,7 @@ func (p *Policy) BlockAccountInternalDeferrable(ic *interop.Context, hash util.U
 			cache.blockedAccounts = append(cache.blockedAccounts[:i+1], cache.blockedAccounts[i:]...)
 			cache.blockedAccounts[i] = hash
 		}
+		p.markCommitteeOutdated(ic)
 		handleRes(true)
 	}
 
@@ -715,7 +716,17 @@ func (p *Policy) unblockAccount(ic *interop.Context, args []stackitem.Item) stac
 	ic.DAO.DeleteStorageItem(p.ID, key)
 	cache := ic.DAO.GetRWCache(p.ID).(*PolicyCache)
 	cache.blockedAccounts = append(cache.blockedAccounts[:i], cache.blockedAccounts[i+1:]...)
+	p.markCommitteeOutdated(ic)
 	return stackitem.NewBool(true)
+}
+
+// markCommitteeOutdated makes NEO recalculate the next epoch's committee: blocked
+// accounts are excluded from the list of candidates, so a change of the blocked
+// list affects it the same way a vote does.
+func (p *Policy) markCommitteeOutdated(ic *interop.Context) {
+	if neoCache, ok := ic.DAO.GetRWCache(p.NEO.Metadata().ID).(*NeoCache); ok {
+		neoCache.votesChanged = true
+	}
 }
 
 func (p *Policy) getMaxValidUntilBlockIncrement(ic *interop.Context, _ []stackitem.Item) stackitem.Item {
